@@ -651,6 +651,16 @@ def simulate_restart(case, stats, mode=None):
                     ctx.set(dut.flag2, (av ^ 5) & 15)
             sim.add_process(comb_process)
 
+            async def watcher(ctx):
+                # a process that watches a combinationally driven signal: every change it is told about, with its instant
+                # (after reset() the signal starts from its initial value again - no change is left over from the old run)
+                n_seen = 0
+                async for (cv,) in ctx.changed(dut.c):
+                    n_seen += 1
+                    if n_seen <= 40:
+                        log.append((97, "c_changed", ctx.elapsed_time().femtoseconds, int(cv)))
+            sim.add_process(watcher)
+
         if case.get("legacy_tb"):
             # a testbench in the deprecated generator style (still supported): restarted by reset() like any other
             from amaranth.sim import Delay as _Delay
